@@ -5,6 +5,7 @@ package e3
 
 import (
 	"fmt"
+	"runtime"
 	"strings"
 	"testing"
 	"testing/synctest"
@@ -23,8 +24,22 @@ func Bubble(t *testing.T, rc *core.RunCtx, body func()) {
 			msg := fmt.Sprint(r)
 			if strings.Contains(msg, "deadlock") || strings.Contains(msg, "blocked goroutines remain") {
 				rc.Probe("bubble_left_with_blocked_goroutines")
-				if rc.Res.Violation == nil && rc.Res.InfraError == "" {
-					rc.Res.InfraError = "bubble could not be left cleanly: " + msg
+				if rc.Res.Violation == nil && rc.Res.InfraError == "" && !rc.TolerateLeftover {
+					buf := make([]byte, 1<<20)
+					n := runtime.Stack(buf, true)
+					var keep []string
+					for _, g := range strings.Split(string(buf[:n]), "\n\n") {
+						if strings.Contains(g, "synctest bubble") {
+							if len(g) > 1500 {
+								g = g[:1500]
+							}
+							keep = append(keep, g)
+						}
+					}
+					if len(keep) > 8 {
+						keep = keep[:8]
+					}
+					rc.Res.InfraError = "bubble could not be left cleanly: " + msg + "\n" + strings.Join(keep, "\n\n")
 				}
 				return
 			}
